@@ -639,3 +639,62 @@ Lemma and_not_ib_fields r : wfr r ->
 Proof.
   intros W. pose proof W as W'. unfold wfr in W'. rewrite (enc_vec r). vec_land 18428729675200069631. fsimp. reflexivity.
 Qed.
+
+(* ---- which flag bits a committed transition changed ---- *)
+Lemma land_pow2_testbit x k : 0 <= k -> nz (Z.land x (2 ^ k)) = Z.testbit x k.
+Proof.
+  intros Hk. unfold nz. destruct (Z.testbit x k) eqn:B.
+  - destruct (Z.eqb_spec (Z.land x (2 ^ k)) 0) as [E|E]; [|reflexivity].
+    assert (X : Z.testbit (Z.land x (2 ^ k)) k = false) by (rewrite E; apply Z.bits_0).
+    rewrite Z.land_spec, B, Z.pow2_bits_true in X by lia. discriminate.
+  - destruct (Z.eqb_spec (Z.land x (2 ^ k)) 0) as [E|E]; [reflexivity|]. exfalso. apply E.
+    apply Z.bits_inj'. intros i Hi. rewrite Z.land_spec, Z.bits_0, Z.pow2_bits_eqb by lia.
+    destruct (Z.eqb_spec k i) as [<-|]; [rewrite B; reflexivity | apply andb_false_r].
+Qed.
+
+Lemma testbit_ib r : wfr r -> Z.testbit (enc r) 54 = (f_ib r =? 1).
+Proof.
+  intros W. pose proof W as W'. unfold wfr in W'.
+  rewrite <- (land_pow2_testbit (enc r) 54) by lia. change (2 ^ 54) with 18014398509481984.
+  rewrite enc_vec. vec_land 18014398509481984. fsimp. rewrite vec_linear. unfold nz.
+  assert (f_ib r = 0 \/ f_ib r = 1) as [->| ->] by lia; reflexivity.
+Qed.
+Lemma testbit_enq r : wfr r -> Z.testbit (enc r) 31 = (f_enq r =? 1).
+Proof.
+  intros W. pose proof W as W'. unfold wfr in W'.
+  rewrite <- (land_pow2_testbit (enc r) 31) by lia. change (2 ^ 31) with 2147483648.
+  rewrite enc_vec. vec_land 2147483648. fsimp. rewrite vec_linear. unfold nz.
+  assert (f_enq r = 0 \/ f_enq r = 1) as [->| ->] by lia; reflexivity.
+Qed.
+
+Lemma changed_ib_f r r' : wfr r -> wfr r' ->
+  nz (Z.land (Z.lxor (enc r) (enc r')) 18014398509481984) = negb (f_ib r =? f_ib r').
+Proof.
+  intros W W'. change 18014398509481984 with (2 ^ 54). rewrite land_pow2_testbit by lia.
+  rewrite Z.lxor_spec, !testbit_ib by assumption. unfold wfr in *.
+  assert (f_ib r = 0 \/ f_ib r = 1) as [->| ->] by lia; assert (f_ib r' = 0 \/ f_ib r' = 1) as [->| ->] by lia; reflexivity.
+Qed.
+Lemma changed_enq_f r r' : wfr r -> wfr r' ->
+  nz (Z.land (Z.lxor (enc r) (enc r')) 2147483648) = negb (f_enq r =? f_enq r').
+Proof.
+  intros W W'. change 2147483648 with (2 ^ 31). rewrite land_pow2_testbit by lia.
+  rewrite Z.lxor_spec, !testbit_enq by assumption. unfold wfr in *.
+  assert (f_enq r = 0 \/ f_enq r = 1) as [->| ->] by lia; assert (f_enq r' = 0 \/ f_enq r' = 1) as [->| ->] by lia; reflexivity.
+Qed.
+
+Lemma barrier_waiter_fields0 r dc fl u nd : wfr r -> f_role r < 2 -> 0 < u < 1073741824 ->
+  drain_barrier_waiter_loop 0 dc fl 0 (enc r) (Z.land u 1073741823) nd =
+  Commit (enc (mk u 0 (f_enq r) (f_mq r) 0 (f_role r) (f_em r) 0 (f_pb r) (f_wq r) (f_ib r) (f_hi r))) 0.
+Proof.
+  intros W Hr Hu. pose proof W as W'. unfold wfr in W'.
+  pose proof (barrier_waiter_fields r dc fl 0 u nd W Hr Hu ltac:(lia)) as H.
+  change (2147483648 * 0) with 0 in H. rewrite Z.sub_0_r in H. exact H.
+Qed.
+Lemma barrier_waiter_fields1 r dc fl u nd : wfr r -> f_role r < 2 -> 0 < u < 1073741824 -> f_enq r = 1 ->
+  drain_barrier_waiter_loop 0 dc fl 2147483648 (enc r) (Z.land u 1073741823) nd =
+  Commit (enc (mk u 0 0 (f_mq r) 0 (f_role r) (f_em r) 0 (f_pb r) (f_wq r) (f_ib r) (f_hi r))) 0.
+Proof.
+  intros W Hr Hu He.
+  pose proof (barrier_waiter_fields r dc fl 1 u nd W Hr Hu ltac:(lia)) as H.
+  change (2147483648 * 1) with 2147483648 in H. rewrite He in H. exact H.
+Qed.
